@@ -16,10 +16,10 @@ import (
 	"cvh/lib"
 )
 
-const corpusDir = "/verif/corpus/C01"
+const dmCorpusDir = "/verif/corpus/C01"
 
 // Step of a scenario.
-type Step struct {
+type dmStep struct {
 	Kind string `json:"kind"`           // deploy | tx | script
 	Addr string `json:"addr,omitempty"` // account: deploy target / transaction signer (hex, e.g. 0x1)
 	Name string `json:"name,omitempty"` // contract name (deploy)
@@ -27,26 +27,26 @@ type Step struct {
 }
 
 // Scenario is a program (single script) or a history of steps run on one Host.
-type Scenario struct {
+type dmScenario struct {
 	Key      string   `json:"key,omitempty"`
 	Kind     string   `json:"kind"`             // script | scenario
 	Engine   string   `json:"engine,omitempty"` // corpus: interpreter | vm | both
-	Steps    []Step   `json:"steps"`
+	Steps    []dmStep `json:"steps"`
 	Features []string `json:"-"`
 	Mutant   string   `json:"-"` // name of the mutation operator that produced it ("" = generated)
 }
 
-func scriptScenario(src string) *Scenario {
-	return &Scenario{Kind: "script", Steps: []Step{{Kind: "script", Code: src}}}
+func dmScriptScenario(src string) *dmScenario {
+	return &dmScenario{Kind: "script", Steps: []dmStep{{Kind: "script", Code: src}}}
 }
 
-func (sc *Scenario) clone() *Scenario {
+func (sc *dmScenario) clone() *dmScenario {
 	c := *sc
-	c.Steps = append([]Step{}, sc.Steps...)
+	c.Steps = append([]dmStep{}, sc.Steps...)
 	return &c
 }
 
-func parseAddr(s string) common.Address {
+func dmParseAddr(s string) common.Address {
 	a, err := common.HexToAddress(strings.TrimPrefix(s, "0x"))
 	if err != nil {
 		return common.Address{0, 0, 0, 0, 0, 0, 0, 1}
@@ -54,47 +54,75 @@ func parseAddr(s string) common.Address {
 	return a
 }
 
-var rePrepare = regexp.MustCompile(`prepare\s*\(([^()]*(\([^()]*\)[^()]*)*)\)`)
+var dmRePrepare = regexp.MustCompile(`prepare\s*\(([^()]*(\([^()]*\)[^()]*)*)\)`)
 
 // signersOf: one signer (the step's account) per `&Account` parameter of the prepare block.
-func signersOf(st Step) []common.Address {
-	m := rePrepare.FindStringSubmatch(st.Code)
+func dmSignersOf(st dmStep) []common.Address {
+	m := dmRePrepare.FindStringSubmatch(st.Code)
 	if m == nil {
 		return nil
 	}
 	n := strings.Count(m[1], "&Account")
 	var out []common.Address
 	for i := 0; i < n; i++ {
-		out = append(out, parseAddr(st.Addr))
+		out = append(out, dmParseAddr(st.Addr))
 	}
 	return out
 }
 
 // stepResult is the classified outcome of one step.
-type stepResult struct {
-	V   verdict
+type dmStepResult struct {
+	V   dmVerdict
 	Err string
+}
+
+// limits: a mutant may loop forever or grow values exponentially; metering errors are user errors.
+type dmLimitGauge struct {
+	comp, mem       uint64
+	compMax, memMax uint64
+}
+
+type dmLimitError struct{ what string }
+
+func (e dmLimitError) Error() string { return e.what + " limit of the harness exceeded" }
+
+func (g *dmLimitGauge) MeterComputation(u common.ComputationUsage) error {
+	g.comp += u.Intensity
+	if g.comp > g.compMax {
+		return dmLimitError{"computation"}
+	}
+	return nil
+}
+
+func (g *dmLimitGauge) MeterMemory(u common.MemoryUsage) error {
+	g.mem += u.Amount
+	if g.mem > g.memMax {
+		return dmLimitError{"memory"}
+	}
+	return nil
 }
 
 // runScenario executes all steps on a fresh Host with the given engine. It stops at the first
 // internal/crash outcome and returns its index (-1 if none) together with all verdicts so far.
-func runScenario(sc *Scenario, vm bool) (res []stepResult, failing int) {
+func dmRunScenario(sc *dmScenario, vm bool) (res []dmStepResult, failing int) {
 	h := lib.NewHost()
 	failing = -1
 	for i, st := range sc.Steps {
 		var o lib.Outcome
+		lg := &dmLimitGauge{compMax: 150000, memMax: 300000000}
+		h.CompGauge, h.MemGauge = lg, lg
 		switch st.Kind {
 		case "deploy":
-			o = h.Deploy(parseAddr(st.Addr), st.Name, st.Code, vm)
+			o = h.Deploy(dmParseAddr(st.Addr), st.Name, st.Code, vm)
 		case "tx":
-			o = h.RunTx(st.Code, nil, signersOf(st), vm)
+			o = h.RunTx(st.Code, nil, dmSignersOf(st), vm)
 		default:
 			o = h.RunScript(st.Code, nil, vm)
 		}
 		// programs cached by the test interface must not survive contract updates/removals
 		h.Iface.Programs = nil
-		v := classify(o.Err, o.Panic)
-		r := stepResult{V: v}
+		v := dmClassify(o.Err, o.Panic)
+		r := dmStepResult{V: v}
 		if o.Err != nil {
 			r.Err = o.Err.Error()
 			// the Go stack of an UnexpectedError is not part of the replay (addresses, paths)
@@ -102,7 +130,7 @@ func runScenario(sc *Scenario, vm bool) (res []stepResult, failing int) {
 				r.Err = r.Err[:i]
 			}
 		} else if o.Panic != nil {
-			r.Err = "panic: " + toStr(o.Panic)
+			r.Err = "panic: " + dmToStr(o.Panic)
 		}
 		res = append(res, r)
 		if v.Class == "internal" || v.Class == "crash" {
@@ -113,7 +141,7 @@ func runScenario(sc *Scenario, vm bool) (res []stepResult, failing int) {
 	return
 }
 
-func toStr(x any) string {
+func dmToStr(x any) string {
 	if e, ok := x.(error); ok {
 		return e.Error()
 	}
@@ -124,7 +152,7 @@ func toStr(x any) string {
 	return "non-error panic value"
 }
 
-func engineName(vm bool) string {
+func dmEngineName(vm bool) string {
 	if vm {
 		return "vm"
 	}
@@ -133,15 +161,15 @@ func engineName(vm bool) string {
 
 // ------------------------------------------------------------------ corpus
 
-func loadCorpus() (out []*Scenario, names []string) {
-	files, _ := filepath.Glob(filepath.Join(corpusDir, "*.json"))
+func dmLoadCorpus() (out []*dmScenario, names []string) {
+	files, _ := filepath.Glob(filepath.Join(dmCorpusDir, "*.json"))
 	sort.Strings(files)
 	for _, f := range files {
 		b, err := os.ReadFile(f)
 		if err != nil {
 			continue
 		}
-		var sc Scenario
+		var sc dmScenario
 		if json.Unmarshal(b, &sc) != nil || len(sc.Steps) == 0 {
 			continue
 		}
@@ -153,20 +181,20 @@ func loadCorpus() (out []*Scenario, names []string) {
 
 // ------------------------------------------------------------------ shrinking
 
-type shrinker struct {
+type dmShrinker struct {
 	vm     bool
-	want   verdict
+	want   dmVerdict
 	budget int
 	runs   int
 }
 
 // holds reports whether the candidate still fails with the same class and detail in the same engine.
-func (s *shrinker) holds(c *Scenario) (bool, int) {
+func (s *dmShrinker) holds(c *dmScenario) (bool, int) {
 	if s.runs >= s.budget {
 		return false, -1
 	}
 	s.runs++
-	res, f := runScenario(c, s.vm)
+	res, f := dmRunScenario(c, s.vm)
 	if f < 0 {
 		return false, -1
 	}
@@ -175,7 +203,7 @@ func (s *shrinker) holds(c *Scenario) (bool, int) {
 
 // blockEnd returns the index of the line closing the block opened on line i (by brace counting),
 // or -1 when line i opens no block or the block is unbalanced.
-func blockEnd(lines []string, i int) int {
+func dmBlockEnd(lines []string, i int) int {
 	depth := 0
 	opened := false
 	for j := i; j < len(lines); j++ {
@@ -201,27 +229,27 @@ func blockEnd(lines []string, i int) int {
 	return -1
 }
 
-type cut struct {
+type dmCut struct {
 	from, to int
 	unwrap   bool
 }
 
 // cuts enumerates removal candidates of a source text: whole blocks (largest first), block
 // unwrapping (drop the opening and closing lines), single lines.
-func cuts(lines []string) []cut {
-	var cs []cut
+func dmCuts(lines []string) []dmCut {
+	var cs []dmCut
 	for i := range lines {
 		t := strings.TrimSpace(lines[i])
 		if t == "" {
 			continue
 		}
-		if e := blockEnd(lines, i); e > i {
-			cs = append(cs, cut{i, e, false})
+		if e := dmBlockEnd(lines, i); e > i {
+			cs = append(cs, dmCut{i, e, false})
 			if !strings.HasPrefix(t, "access(") && !strings.HasPrefix(t, "transaction") && !strings.HasPrefix(t, "prepare") {
-				cs = append(cs, cut{i, e, true})
+				cs = append(cs, dmCut{i, e, true})
 			}
 		} else if t != "}" {
-			cs = append(cs, cut{i, i, false})
+			cs = append(cs, dmCut{i, i, false})
 		}
 	}
 	sort.SliceStable(cs, func(a, b int) bool {
@@ -230,7 +258,7 @@ func cuts(lines []string) []cut {
 	return cs
 }
 
-func applyCut(lines []string, c cut) []string {
+func dmApplyCut(lines []string, c dmCut) []string {
 	var out []string
 	for i, l := range lines {
 		if c.unwrap {
@@ -246,7 +274,7 @@ func applyCut(lines []string, c cut) []string {
 }
 
 // textual simplifications of expressions tried after line removal
-var simplifiers = []struct {
+var dmSimplifiers = []struct {
 	re   *regexp.Regexp
 	repl string
 }{
@@ -255,8 +283,8 @@ var simplifiers = []struct {
 }
 
 // shrink minimizes a failing scenario while the same failure persists (bounded effort).
-func shrinkScenario(sc *Scenario, vm bool, want verdict, failing int, budget int) (*Scenario, int) {
-	s := &shrinker{vm: vm, want: want, budget: budget}
+func dmShrinkScenario(sc *dmScenario, vm bool, want dmVerdict, failing int, budget int) (*dmScenario, int) {
+	s := &dmShrinker{vm: vm, want: want, budget: budget}
 	cur := sc.clone()
 	// steps after the failing one never ran
 	if failing >= 0 && failing+1 < len(cur.Steps) {
@@ -265,7 +293,7 @@ func shrinkScenario(sc *Scenario, vm bool, want verdict, failing int, budget int
 	// remove earlier steps
 	for i := len(cur.Steps) - 2; i >= 0 && s.runs < s.budget; i-- {
 		c := cur.clone()
-		c.Steps = append(append([]Step{}, cur.Steps[:i]...), cur.Steps[i+1:]...)
+		c.Steps = append(append([]dmStep{}, cur.Steps[:i]...), cur.Steps[i+1:]...)
 		if ok, f := s.holds(c); ok {
 			c.Steps = c.Steps[:f+1]
 			cur = c
@@ -284,11 +312,11 @@ func shrinkScenario(sc *Scenario, vm bool, want verdict, failing int, budget int
 		for progress && s.runs < s.budget {
 			progress = false
 			lines := strings.Split(cur.Steps[si].Code, "\n")
-			for _, c := range cuts(lines) {
+			for _, c := range dmCuts(lines) {
 				if s.runs >= s.budget {
 					break
 				}
-				nl := applyCut(lines, c)
+				nl := dmApplyCut(lines, c)
 				cand := cur.clone()
 				cand.Steps[si].Code = strings.Join(nl, "\n")
 				if ok, f := s.holds(cand); ok && f == len(cand.Steps)-1 {
@@ -298,7 +326,7 @@ func shrinkScenario(sc *Scenario, vm bool, want verdict, failing int, budget int
 				}
 			}
 		}
-		for _, sp := range simplifiers {
+		for _, sp := range dmSimplifiers {
 			if s.runs >= s.budget {
 				break
 			}
